@@ -225,6 +225,9 @@ def readback(node, S=1, samples=None, full=False):
 DEFAULT_IVS = [(0, 0), (0, 1), (1, 2), (2, 2), (0, 3), (1, 1), (0, 2), (3, 5), (0, 7)]
 
 
+AUTO_FUNCS = 0.0
+
+
 class Gen(object):
     """seeded random formula generator.  `ops` is the set of Boolean/temporal operators allowed,
     `arith` the arithmetic operators allowed inside predicate operands."""
@@ -244,12 +247,43 @@ class Gen(object):
         self.bool_atoms = bool_atoms
         self.tterm = 0.0          # probability of a (past) temporal operator inside an arithmetic term: (x - prev x) >= 1
         self.tterm_ops = ["prev", "sprev", "once", "hist", "onceT", "histT"]
+        # probability of a function term (sqrt exp ln log pow) at a point where its value is exact; checks opt in by setting
+        # astlib.AUTO_FUNCS (then about a fifth of their generators produce such terms)
+        self.funcs = 0.35 if AUTO_FUNCS and rng.random() < AUTO_FUNCS else 0.0
+
+    def funterm(self, d):
+        """sqrt / exp / ln / log / pow applied where floating point is exact: exp(t - t) = 1, ln(exp(t - t)) = 0, ln(1 + (t - t)) = 0,
+        log(1 + (t - t), 2) = 0, sqrt(t * t) = |t|, pow(t, 2), pow(2, |t|) (the last three at scale 1 only); t is any
+        function-free term - also a temporal one, whose padding (+-inf) then reaches the function"""
+        import copy
+        r = self.r
+        saved, self.funcs = self.funcs, 0.0
+        t = self.term(d - 1)
+        self.funcs = saved
+        zero = bi("sub", t, copy.deepcopy(t))
+        one = bi("add", const(self.S), zero)
+        k = r.choice(["exp0", "lnexp", "ln1", "log1"] + (["sqrt", "sqrt", "pow2", "2pow"] if self.S == 1 else []))
+        if k == "exp0":
+            return un("exp", zero)
+        if k == "lnexp":
+            return un("ln", un("exp", zero))
+        if k == "ln1":
+            return un("ln", one)
+        if k == "log1":
+            return bi("log", one, const(2 * self.S))
+        if k == "sqrt":
+            return un("sqrt", bi("mul", t, copy.deepcopy(t)))
+        if k == "pow2":
+            return bi("pow", t, const(2))
+        return bi("pow", const(2), un("abs", t))
 
     def term(self, d):
         r = self.r
         if self.tterm and r.random() < self.tterm:
             o_ = r.choice(self.tterm_ops)
             return un(o_, self.term(d - 1), *r.choice(self.ivs)) if o_ in UN_TIMED else un(o_, self.term(d - 1))
+        if self.funcs and d >= 1 and r.random() < self.funcs:
+            return self.funterm(d)
         if d <= 0 or not self.arith or r.random() < 0.45:
             if r.random() < 0.65:
                 return var(r.choice(self.vars))
